@@ -310,6 +310,103 @@ PROPS["C21"] = {
     "not_covered": ["32-bit chunked (discontiguous) update path", "extreme_assertions sanity mirror"],
 }
 
+PROPS["C18"] = {
+    "ready": False,
+    "level": "other",
+    "technique": "Kani proof harnesses on the real mark/log/pin transition functions for every metadata placement of the harness binding family (CBMC); sequential kernel only",
+    "anchors": [("test_and_mark", "src/util/metadata/mark_bit.rs"), ("pin_object", "src/util/metadata/pin_bit.rs"), ("log_object", "src/plan/barriers.rs"),
+                ("compare_exchange_metadata", "src/util/metadata/global.rs")],
+    "kani": {"prefix": "c18_", "files": ["c18_transitions.rs", "obj.rs", "side.rs", "vm.rs"], "timeout_quick": 900, "timeout_thorough": 2400,
+             "features_quick": [["object_pinning"]], "features_thorough": [["object_pinning"], []]},
+    "functions": ["MarkState::{new, is_marked, test_and_mark, on_global_release}", "VMLocalMarkBitSpec::{mark, is_marked}",
+                  "VMLocalPinningBitSpec::{pin_object, unpin_object, is_object_pinned}", "ObjectBarrier::{log_object, object_is_unlogged}",
+                  "VMGlobalLogBitSpec::{is_unlogged, mark_as_unlogged}", "MetadataSpec::{load, load_atomic, store_atomic, compare_exchange_metadata} (header and side dispatch)"],
+    "explanation": "SEQUENTIAL KERNEL ONLY. For each transition (mark via MarkState, with and without the header-state flip of on_global_release; log via "
+                   "ObjectBarrier::log_object; pin / unpin) and each metadata placement (on the side at a symbolic field position; header bits above the forwarding word; header byte "
+                   "below the object reference), with all surrounding header and side-table bits symbolic: the first caller observes the transition as its own iff the object "
+                   "was in the source state, the final state is the transitioned state, no bit outside the field changes, and an immediately following second call returns false "
+                   "and changes nothing. The load-then-CAS retry loops exit after one iteration without interference (unwinding assertion on). What this family cannot decide, and "
+                   "what therefore remains assumed: that each compare-exchange is one atomic step and the outcome under overlapping executions (Kani has no threads).",
+    "bounds": ["non-overlapping executions only (two sequential callers); three metadata layouts"],
+    "assumptions": ["atomicity of each RMW and memory orderings (sequential semantics)", "each caller runs to completion before the next starts"],
+    "trusted_base": ["kani::stub of global_side_metadata_base_address", "core::sync::atomic as modelled by Kani/CBMC"],
+    "not_covered": ["overlapping interleavings of the racing threads", "ImmixSpace::attempt_mark and LargeObjectSpace::test_and_mark (need a space instance)",
+                    "mark_byte_as_unlogged (documented to touch neighbouring objects' bits)"],
+}
+
+PROPS["C26"] = {
+    "ready": False,
+    "level": "other",
+    "technique": "Kani: inductive-step proof harnesses over every table satisfying an executable representation invariant (6-unit lists), plus complete bit-field accessor harnesses, on the real FreeList code (CBMC)",
+    "anchors": [("alloc", "src/util/freelist.rs"), ("free", "src/util/freelist.rs"), ("__coalesce", "src/util/freelist.rs"), ("add_to_free", "src/util/freelist.rs"),
+                ("IntArrayFreeList", "src/util/int_array_freelist.rs")],
+    "kani": {"prefix": "c26_", "files": ["c26_freelist.rs"], "timeout_quick": 1500, "timeout_thorough": 3600},
+    "functions": ["FreeList::{alloc, alloc_from_unit, free, size, initialize_heap, add_to_free, __alloc, __split, __coalesce, __remove_from_free}",
+                  "FreeList::{get/set_next, get/set_prev, get/set_size, get/set_free, set_sentinel, get_left, get_right, is_coalescable, set/clear_uncoalescable, "
+                  "is_multi, is_free, get/set_lo_entry, get/set_hi_entry}", "IntArrayFreeList::{new, from_parent, head, heads, get_entry, set_entry}"],
+    "explanation": "Layer 1 (complete): every bit-field accessor on an arbitrary table: setters change only their bits of their entries, getters invert setters on "
+                   "the documented ranges, head links decode to the list's head. Layer 2 (inductive step): for EVERY table of a 6-unit list with 1 or 2 heads that satisfies "
+                   "the executable representation invariant wf (runs tile [0,units) with consistent boundary tags; interior units carry no boundary flag; sentinels; each head's "
+                   "list is a cyclic doubly linked list of free run starts; every free run is on exactly one list) -- not only tables reached by a sampled history -- "
+                   "one alloc / alloc_from_unit / free / set|clear_uncoalescable preserves wf and changes the abstract view (sequence of runs with size, free flag, owning list, "
+                   "boundary flag) exactly as specified: alloc takes a free run of this list that fits, splits off a free coalescable remainder, fails iff no run of the list fits "
+                   "(and then changes nothing); free marks the run free and merges it with exactly the free neighbours not separated by an uncoalescable boundary; size reports the "
+                   "run length; all other runs are unchanged (symbolic index). The constructor establishes wf with the documented grain-sized runs. By induction on the history this "
+                   "covers alloc/free sequences of ANY length; the remaining bound is the list size (6 units, <= 2 heads), hence level 'other'.",
+    "bounds": ["list size: 6 units, 1 or 2 heads (loops unwound to 9, unwinding assertions on); no bound on the history length (inductive step)"],
+    "assumptions": ["free(u) is called on the first unit of an allocated run (the code's own debug_assert) and alloc_from_unit on the first unit of a run",
+                    "runs merged by free belong to the calling list (lists sharing a table are separated by uncoalescable boundaries)",
+                    "set_uncoalescable / clear_uncoalescable are applied to first units of runs"],
+    "trusted_base": ["the executable wf / view oracle in c26_freelist.rs (reads the raw table, independent of the accessors)"],
+    "not_covered": ["lists with more than 6 units or more than 2 heads", "RawMemoryFreeList's table growth (C27)", "first-fit order of alloc (not part of the property)"],
+}
+
+PROPS["C27"] = {
+    "ready": False,
+    "level": "other",
+    "technique": "Kani proof harnesses on the real RawMemoryFreeList with the OS mmap call stubbed by a recorder (CBMC); growth arithmetic complete, growth scenarios bounded by table size",
+    "anchors": [("grow_freelist", "src/util/raw_memory_freelist.rs"), ("grow_list_by_blocks", "src/util/raw_memory_freelist.rs"),
+                ("raise_high_water", "src/util/raw_memory_freelist.rs"), ("current_capacity", "src/util/raw_memory_freelist.rs")],
+    "kani": {"prefix": "c27_", "files": ["c27_rawfreelist.rs"], "timeout_quick": 1500, "timeout_thorough": 3600},
+    "functions": ["RawMemoryFreeList::{new, grow_freelist, grow_list_by_blocks, raise_high_water, current_capacity, units_per_block, units_in_first_block, size_in_pages, "
+                  "default_block_size, get_entry, set_entry, alloc}", "FreeList::{set_sentinel, set_size, add_to_free, alloc, size} as used by growth"],
+    "explanation": "(complete, loop-free) raise_high_water for all (base, table size 1..2^20 pages, pages_per_block 1..16, blocks) and two consecutive calls: maps exactly "
+                   "[old high water, new high water), new high water = min(old + blocks*block, limit), never beyond the limit, no arithmetic failure. "
+                   "(bounded by table size) growth to the configured maximum on a real table in a zeroed harness buffer: for every max_units whose table needs 3 pages with "
+                   "2-page blocks (table size NOT a multiple of the block size) and every split k1 + k2 = max_units, both grow_freelist calls succeed, current_units reaches "
+                   "max_units, a further growth is refused, mapped ranges are contiguous from base and stay below the limit, and every grown unit is allocatable (the two grown "
+                   "regions are allocated, disjoint, sizes exact, nothing left). The same for a table of two whole 1-page blocks.",
+    "bounds": ["table sizes: 3 pages / 2-page blocks (max_units 1023..1534) and 2 pages / 1-page blocks (max_units 511..1022); two growth steps; grain == max_units (as Map64 uses it)"],
+    "assumptions": ["mmap returns zeroed memory at the requested address (the stub records the request; the buffer is zeroed)"],
+    "trusted_base": ["kani::stub of RawMemoryFreeList::mmap (OS::dzmmap)"],
+    "not_covered": ["tables larger than 3 pages, more than two growth steps, grains smaller than the growth step", "Map64::create_parent_freelist's sizing arithmetic (f64)"],
+}
+
+PROPS["C28"] = {
+    "ready": False,
+    "level": "other",
+    "technique": "Kani proof harnesses (inductive step over two consecutive symbolic requests) on the real PageAccounting / MonotonePageResource / Map64 (CBMC)",
+    "anchors": [("PageAccounting", "src/util/heap/accounting.rs"), ("alloc_pages", "src/util/heap/monotonepageresource.rs"), ("commit_pages", "src/util/heap/pageresource.rs"),
+                ("allocate_contiguous_chunks", "src/util/heap/layout/map64.rs")],
+    "kani": {"prefix": "c28_", "files": ["c28_pageresource.rs", "vm.rs"], "timeout_quick": 1500, "timeout_thorough": 3600},
+    "functions": ["PageAccounting::{new, reserve_and_commit, reserve, clear_reserved, commit, release, reset, get_reserved_pages, get_committed_pages}",
+                  "PageResource::{reserve_pages, clear_request, get_new_pages, commit_pages, reserved_pages, committed_pages} (default methods)",
+                  "MonotonePageResource::{new_contiguous, new_discontiguous, alloc_pages, cursor}", "CommonPageResource::{new, grow_discontiguous_space}",
+                  "Map64::{new, insert, allocate_contiguous_chunks, get_descriptor_for_address}", "policy::space::required_chunks"],
+    "explanation": "PageAccounting: every operation changes the two counters by exactly the stated amounts and the decrementing ones do not underflow under their documented "
+                   "preconditions (complete, loop-free). MonotonePageResource, contiguous: for a symbolic page-aligned space and two consecutive symbolic requests (the state "
+                   "after the first grant is the general reachable state cursor = start + k pages <= sentinel, so the second step is the inductive step): each grant is page-aligned, "
+                   "inside [start, start+bytes), starts exactly where the previous grant ended (hence all live grants are pairwise disjoint), the request fails iff it does not fit, "
+                   "reserved == committed == pages granted after each grant and a failed request leaves committed unchanged. Discontiguous over the real Map64 (default 64-bit layout, any "
+                   "space index): grants are chunk-/page-aligned, inside the space of the descriptor and resolve to that descriptor in the VM map, disjoint, new chunks are taken only "
+                   "when the current chunk run cannot hold the request, counters exact. Monotone resources never release individual grants, so 'live grants' = all grants.",
+    "bounds": ["two consecutive requests (inductive step); request sizes <= 2^25 pages (contiguous) / 3000 pages (discontiguous)"],
+    "assumptions": ["single-threaded histories (the Mutex is taken but mutual exclusion is not what is verified)"],
+    "trusted_base": ["std::sync::Mutex as modelled by Kani"],
+    "not_covered": ["FreeListPageResource and BlockPageResource (need mmapper, VM threads, live spaces); their substrates are C26 (free lists) and C19 (block pool)",
+                    "release paths (reset / reset_cursor / release_pages)", "multi-threaded histories", "32-bit Map32 discontiguous chunk lists"],
+}
+
 PROPS["C31"] = {
     "ready": False,
     "level": "proof",
@@ -333,22 +430,22 @@ PROPS["C31"] = {
 PROPS["C40"] = {
     "ready": False,
     "level": "other",
-    "technique": "Kani bounded proof harness (input length <= 7) over the real RevisitableGroupBy / RevisitableGroup iterators (CBMC); bounded stand-in, not counted as proved",
+    "technique": "Kani bounded proof harness (input length <= 5 quick / 7 thorough) over the real RevisitableGroupBy / RevisitableGroup iterators (CBMC); bounded stand-in, not counted as proved",
     "anchors": [("RevisitableGroupBy", "src/util/rust_util/rev_group.rs"), ("RevisitableGroup", "src/util/rust_util/rev_group.rs"),
                 ("revisitable_group_by", "src/util/rust_util/rev_group.rs")],
     "kani": {"prefix": "c40_", "files": ["c40_revgroup.rs"], "timeout_quick": 900, "timeout_thorough": 2400},
     "functions": ["RevisitableGroupByForIterator::revisitable_group_by", "<RevisitableGroupBy as Iterator>::next", "<RevisitableGroup as Iterator>::next "
                   "(instantiated on slice::Iter<u8> and on Copied<Flatten<Copied<slice::Iter<&[u8]>>>>)"],
-    "explanation": "BOUNDED (input length <= 7), complete within the bound: the real iterators are run over a slice of symbolic bytes of symbolic "
-                   "length with key function x & m for a symbolic mask m (so every partition shape of <= 7 items into runs occurs), and over two "
+    "explanation": "BOUNDED (input length <= 5 quick / 7 thorough), complete within the bound: the real iterators are run over a slice of symbolic bytes of symbolic "
+                   "length with key function x & m for a symbolic mask m (so every partition shape of <= 5 (7) items into runs occurs), and over two "
                    "flattened slices with a symbolic cut. Checked: the items yielded by the groups, in order, are exactly the input; each item's key equals "
                    "its group's reported key; each group is non-empty; reported len == number of items the group yields; adjacent groups have different "
                    "keys; empty input yields no group. Generic `Iterator + Clone` code with FnMut closures is outside what Verus accepts for extraction, so the "
                    "length bound remains and the level is 'other'.",
-    "bounds": ["input length <= 7 (loops unwound to 10, unwinding assertions on)", "item type u8, key type u8 (the code is parametric in both)"],
+    "bounds": ["input length <= 5 in the quick tier and <= 7 in the thorough tier (loops unwound to length + 3, unwinding assertions on)", "item type u8, key type u8 (the code is parametric in both)"],
     "assumptions": ["key functions are pure (the harness' key is x & m)"],
     "trusted_base": ["core::slice::Iter / Flatten / Copied as compiled by Kani"],
-    "not_covered": ["inputs longer than 7 items", "impure key functions"],
+    "not_covered": ["inputs longer than 7 items (5 in the quick tier)", "impure key functions"],
 }
 
 PROPS["C22"] = {
